@@ -1730,6 +1730,10 @@ def family_nesting(tier):
             for b2 in bodies2:
                 out.append(('if', c0, b, [], b2, [False]))
                 out.append(('if', c0, b2, [(c2, b)], None, [False, False]))
+                # the block of an elif that is FOLLOWED by further clauses (else / another elif)
+                out.append(('if', c0, b2, [(c2, b)], b2, [False, False]))
+                out.append(('if', c0, b2, [(c2, b), (c1, b2)], None, [False, False, False]))
+                out.append(('if', c0, b2, [(c1, b2), (c2, b)], b2, [False, False, False]))
         for b in bodies2:
             for b2 in bodies2:
                 for b3 in bodies2:
